@@ -7,7 +7,7 @@ ROOT=$(pwd)
 export GOFLAGS=-mod=mod GOPROXY=off GOSUMDB=off GOTOOLCHAIN=local GONOSUMDB=* GONOSUMCHECK=1 GOFLAGS=-mod=mod
 PROP=$1
 TIER=${2:-quick}
-RACE_PROPS="C06"
+RACE_PROPS="C06 C14"
 mkdir -p "$ROOT/bin" "$ROOT/evidence" "$ROOT/replays"
 cp /repo/go.sum "$ROOT/sim/go.sum" 2>/dev/null
 if ! (cd "$ROOT/sim" && go build -tags verif -o "$ROOT/bin/walsim" ./cmd/walsim) > "$ROOT/bin/build.log" 2>&1; then
